@@ -174,6 +174,17 @@ def validate_traces(scratch, module, cfg, traces, *, workers=8, timeout=1800, na
     path = scratch.path(name)
     with open(path, 'w') as f:
         json.dump(traces, f)
+    if invariants is not None:
+        # TLC reports only the first violated invariant of a state: check just the caller's clauses, so that a clause of
+        # another property failing in the same state cannot mask them
+        with open(scratch.path(cfg)) as f:
+            lines = f.read().splitlines()
+        keep = [ln for ln in lines if not ln.startswith('INVARIANT') or ln.split()[1] in invariants]
+        missing = set(invariants) - {ln.split()[1] for ln in keep if ln.startswith('INVARIANT')}
+        if missing:
+            raise MachineryError(f'{cfg} has no INVARIANT {sorted(missing)}')
+        cfg = cfg[:-4] + '.sel.cfg'
+        scratch.write(cfg, '\n'.join(keep) + '\n')
     res = run_tlc(scratch, module, cfg, workers=workers, cont=True, timeout=timeout,
                   env_extra={'TRACE_FILE': path})
     failures = []
